@@ -33,10 +33,10 @@ FLAGS = ['-d', '--debug-parser', '--debug-generator', '--debug-filename']
 def plan(tier, seed):
     if tier == 'quick':
         return {'n': 48, 'deadline': 150, 'case_timeout': 300,
-                'floor': {'distinct_nontrivial': 500, 'cli_runs': 800, 'flag_sets_seen': 16, 'stdin_runs': 80, 'outfile_runs': 200,
+                'floor': {'invalid_utf8_source_runs': 1, 'distinct_nontrivial': 500, 'cli_runs': 800, 'flag_sets_seen': 16, 'stdin_runs': 80, 'outfile_runs': 200,
                           'multi_source_runs': 150, 'failing_source_runs': 80, 'newline_or_nonascii_programs': 15}}
     return {'n': 700, 'deadline': 570, 'case_timeout': 300,
-            'floor': {'distinct_nontrivial': 8000, 'cli_runs': 12000, 'flag_sets_seen': 16, 'stdin_runs': 1200, 'outfile_runs': 3000,
+            'floor': {'invalid_utf8_source_runs': 1, 'distinct_nontrivial': 8000, 'cli_runs': 12000, 'flag_sets_seen': 16, 'stdin_runs': 1200, 'outfile_runs': 3000,
                       'multi_source_runs': 2500, 'failing_source_runs': 1200, 'newline_or_nonascii_programs': 250}}
 
 
